@@ -141,6 +141,8 @@ struct Trees {
 	readers: HashMap<Key, Weak<RwLock<Box<dyn TreeReader + Send + Sync>>>, IdentityBuildHasher>,
 	/// Number of queued dereferences for each tree
 	to_dereference: HashMap<Key, usize>,
+	/// Trees the log worker holds the write lock of while it removes them.
+	removing: HashSet<Key>,
 }
 
 #[derive(Debug)]
@@ -487,6 +489,7 @@ impl DbInner {
 				let column_trees = trees.entry(col).or_insert_with(|| Trees {
 					readers: Default::default(),
 					to_dereference: Default::default(),
+					removing: Default::default(),
 				});
 
 				let reader: Box<dyn TreeReader + Send + Sync> =
@@ -601,6 +604,7 @@ impl DbInner {
 									let column_trees = trees.entry(col).or_insert_with(|| Trees {
 										readers: Default::default(),
 										to_dereference: Default::default(),
+										removing: Default::default(),
 									});
 									let count =
 										column_trees.to_dereference.get(&hash).unwrap_or(&0) + 1;
@@ -687,11 +691,13 @@ impl DbInner {
 					assert!(*count > 0);
 
 					// Check if TreeReader is active for this tree
-					let tree_active = column_trees
-						.readers
-						.get(hash)
-						.and_then(|reader| reader.upgrade())
-						.map_or(false, |reader| reader.is_locked());
+					// (a lock the log worker holds to remove the tree is not a reader)
+					let tree_active = !column_trees.removing.contains(hash) &&
+						column_trees
+							.readers
+							.get(hash)
+							.and_then(|reader| reader.upgrade())
+							.map_or(false, |reader| reader.is_locked());
 					if tree_active {
 						indexed.used_trees.insert(*hash);
 					}
@@ -2447,15 +2453,26 @@ impl IndexedChangeSet {
 						if rc == 1 {
 							let tree = db.get_tree(db, col, key, false).unwrap();
 							if let Some(tree) = tree {
+								// The write lock is the log worker's own. A commit made meanwhile must
+								// not take it for a reader of the tree: it would mark the tree as
+								// used and make the next removal of this root wait behind it.
+								if let Some(trees) = db.trees.write().get_mut(&col) {
+									trees.removing.insert(*hash);
+								}
 								let guard = tree.write();
 								let mut num_removed = 0;
-								self.write_dereference_children_plan(
+								let walked = self.write_dereference_children_plan(
 									column,
 									&guard,
 									children,
 									&mut num_removed,
 									writer,
-								)?;
+								);
+								drop(guard);
+								if let Some(trees) = db.trees.write().get_mut(&col) {
+									trees.removing.remove(hash);
+								}
+								walked?;
 								log::debug!(target: "parity-db", "Dereferenced tree {:?}, removed {}", &key[..key.len().min(3)], num_removed);
 							}
 						}
